@@ -75,6 +75,42 @@ def templates(fn: ast.AST) -> list[tuple[ast.AST, str]]:
     return out
 
 
+def _l10(run: Run) -> None:
+    pm = run.src.need(PRINTER)
+    pcls = [c for c in pm.tree.body if isinstance(c, ast.ClassDef) and any(dotted(b) == "LatexPrinter" for b in c.bases)]
+    run.require(bool(pcls), "LaTeX printer class not found")
+    LEVELS = {"Mul", "Pow", "Func", "Atom", "BitwiseAnd", "BitwiseOr", "BitwiseXor"}
+    for opname, modname in (("IndexedSum", "symplyphysics.core.operations.sum_indexed"), ("IndexedProduct", "symplyphysics.core.operations.product_indexed")):
+        meth = next((f_ for f_ in pcls[0].body if isinstance(f_, ast.FunctionDef) and f_.name == f"_print_{opname}"), None)
+        run.require(meth is not None, f"_print_{opname} not found")
+        run.ob("L10", f"{opname}:body-bracketed")
+        # the body is the first element of expr.args; whatever renders it must be self.parenthesize(<body>, PRECEDENCE[<level>])
+        param = meth.args.args[1].arg
+        body_names = set()
+        for st in ast.walk(meth):
+            if isinstance(st, ast.Assign) and isinstance(st.targets[0], ast.Tuple) and dotted(st.value) == f"{param}.args" and st.targets[0].elts and isinstance(st.targets[0].elts[0], ast.Name):
+                body_names.add(st.targets[0].elts[0].id)
+        def is_body(x) -> bool:
+            return (isinstance(x, ast.Name) and x.id in body_names) or (isinstance(x, ast.Subscript) and dotted(x.value) == f"{param}.args" and isinstance(x.slice, ast.Constant) and x.slice.value == 0) \
+                or dotted(x) == f"{param}.function"
+        bare = [c for c in ast.walk(meth) if isinstance(c, ast.Call) and dotted(c.func) in ("self._print", "self.doprint") and c.args and is_body(c.args[0])]
+        grouped = [c for c in ast.walk(meth) if isinstance(c, ast.Call) and dotted(c.func) == "self.parenthesize" and len(c.args) >= 2 and is_body(c.args[0])
+                   and isinstance(c.args[1], ast.Subscript) and dotted(c.args[1].value) == "PRECEDENCE" and isinstance(c.args[1].slice, ast.Constant) and c.args[1].slice.value in LEVELS]
+        if bare or not grouped:
+            run.violate("L10", f"{PRINTER}:_print_{opname}:body", pm, meth,
+                        f"_print_{opname} renders the body of the {'sum' if opname == 'IndexedSum' else 'product'} without brackets: `{opname}(x[i] + a, i)` and `{opname}(x[i], i) + a` get the same LaTeX")
+        om = run.src.need(modname)
+        ocls = next((c for c in om.tree.body if isinstance(c, ast.ClassDef) and c.name == opname), None)
+        run.require(ocls is not None, f"class {opname} not found")
+        run.ob("L10", f"{opname}:precedence")
+        prec = [st for st in ocls.body if isinstance(st, ast.Assign) and any(isinstance(t, ast.Name) and t.id == "precedence" for t in st.targets)]
+        ok = any(isinstance(st.value, ast.Subscript) and dotted(st.value.value) == "PRECEDENCE" and isinstance(st.value.slice, ast.Constant) and st.value.slice.value in ("Mul", "Add") for st in prec)
+        if not ok:
+            run.violate("L10", f"{modname}:{opname}:precedence", om, ocls,
+                        f"{opname} declares no precedence: SymPy's printers treat `\\sum_i ...` as an atom, so (sum_i N_i)! is rendered `\\sum_i N_i!` - the catalogue law "
+                        f"statistical_weight_of_macrostate reads as a sum of factorials - and `{opname}(x[i], i)**2` like `{opname}(x[i]**2, i)`")
+
+
 def check(run: Run) -> None:
     run.rule("L1", "every string template emitted by the LaTeX printer's methods is brace- and \\left/\\right-balanced on its own")
     run.rule("L2", "every display_latex= / subscript= literal and the clone/vector name templates are balanced")
@@ -86,6 +122,13 @@ def check(run: Run) -> None:
     run.rule("L8", "whether two neighbouring factors need the number separator (2 \\cdot 10^{n}) is decided on their rendered text, not on the class of the factors")
     run.rule("L9", "the minus-sign extraction never takes a sign out of the base of a power unless the exponent is tested to be odd ((-b)**(-1/2), (-b)**(-2) keep their base)")
     run.rule("L6", "no f-string of the printer emits a literal `{name}` where `name` is a variable in scope (an unsubstituted placeholder)")
+    run.rule("L10", "the prefix operators IndexedSum / IndexedProduct are grouped: their printers bracket the body (parenthesize, at least product level) and the classes declare "
+             "a precedence below Atom, so powers, factorials and products of a sum bracket it")
+    run.rule("L11", "every attribute of a symbolic wrapper that the printers read (wrap_latex, wrap_code, factor) is part of its identity, so the rendering does not depend on which "
+             "twin was constructed first")
+    from .c03 import wrapper_render_identity
+    wrapper_render_identity(run, "L11")
+    _l10(run)
     pm = run.src.need(PRINTER)
     classes = [c for c in pm.tree.body if isinstance(c, ast.ClassDef) and any(dotted(b) == "LatexPrinter" for b in c.bases)]
     run.require(len(classes) == 1, "LaTeX printer class not found")
